@@ -495,11 +495,18 @@ class Node:
 # cluster
 
 
+# The cyclic garbage collector is switched off while the code under test runs: with millions of recorded objects alive
+# a full collection takes seconds of CPU and would be mistaken for a step that does not return. Young generations are
+# collected when a cluster is closed.
+import gc
+gc.disable()
+
+
 class StepHang(BaseException):
     """The real code did not come back from one scheduler step (BaseException: not swallowed by its own guards)."""
 
 
-STEP_CPU_LIMIT = 3.0           # seconds of CPU for one scheduler step (a step normally takes milliseconds)
+STEP_CPU_LIMIT = 5.0           # seconds of CPU for one scheduler step (a step normally takes milliseconds)
 HUNG_TOTAL = [0]               # number of watchdog interruptions in this process (read by vlib.Verdict.finish)
 
 
@@ -773,6 +780,15 @@ class Cluster:
         import shutil
         if self._own_scratch:
             shutil.rmtree(self.scratch, ignore_errors=True)
+        # break the big reference cycles of the instances by hand and collect the young generations only
+        for node in self.nodes.values():
+            node.supvisors = None
+            node.supervisord = None
+        self._closed_count = getattr(Cluster, '_closed_total', 0) + 1
+        Cluster._closed_total = self._closed_count
+        gc.collect(1)
+        if self._closed_count % 50 == 0:
+            gc.collect()
 
     def item(self, name):
         spec = self.layout[name]
